@@ -1095,6 +1095,32 @@ pub fn check(world: &World, sc: &C17, sandbox: &str) -> Report {
             rep.skipped = Some("cannot write context archive".to_string());
             return rep;
         }
+        if sc.ctx_decoys {
+            // the archive as a user may have re-packed it with another tool: entries in another order,
+            // and entries that are not results (a note, `.orig` copies of other dumps) before and
+            // between them - the loader must go by entry *name*
+            if let Ok(old) = read_entries(&ctx_path) {
+                use std::io::Write;
+                let mut names: Vec<String> = old.keys().cloned().collect();
+                Rng::new(sc.rand ^ 0x7e9a).shuffle(&mut names);
+                if let Ok(f) = std::fs::File::create(&ctx_path) {
+                    let mut zw = zip::ZipWriter::new(f);
+                    let opt = zip::write::FileOptions::default().last_modified_time(zip::DateTime::default());
+                    let _ = zw.start_file("README.txt", opt);
+                    let _ = zw.write_all(b"results of an earlier analysis\n");
+                    for (i, n) in names.iter().enumerate() {
+                        if i % 2 == 1 {
+                            let _ = zw.start_file(format!("{n}.orig"), opt);
+                            let _ = zw.write_all(&old[&names[(i + 1) % names.len()]]);
+                        }
+                        let _ = zw.start_file(n.as_str(), opt);
+                        let _ = zw.write_all(&old[n]);
+                    }
+                    let _ = zw.finish();
+                    rep.probe("context_archives_repacked_with_other_entries", 1);
+                }
+            }
+        }
         args.push("-e".to_string());
         args.push("context.zip".to_string());
         match &sc.fault {
